@@ -162,7 +162,7 @@ func (c *Ctx) locateSite(s *bceSite) {
 				}
 				return true
 			})
-			s.Func = encl
+			s.Func = canonShortName(encl)
 			if ce, ok := best.(*ast.CallExpr); ok {
 				s.Expr = "inlined " + s.Callee + " at " + exprText(c.P.Fset, ce.Fun) + "(...)"
 			} else if best != nil {
@@ -245,6 +245,24 @@ func (c *Ctx) reachableFromPeerInput() map[string]bool {
 
 // astFuncName renders an SSA function the way locateSite names functions.
 func astFuncName(f *ssa.Function) string {
+	return canonShortName(astFuncNameRaw(f))
+}
+
+// canonShortName maps a table name built from the current source to the frozen one.
+func canonShortName(n string) string {
+	if o, ok := canonShort[n]; ok {
+		return o
+	}
+	for nw, old := range typeCanonShort {
+		n = replaceIdent(n, nw, old)
+	}
+	if o, ok := canonShort[n]; ok {
+		return o
+	}
+	return n
+}
+
+func astFuncNameRaw(f *ssa.Function) string {
 	for f.Parent() != nil {
 		f = f.Parent()
 	}
@@ -349,6 +367,12 @@ func normExpr(fset *token.FileSet, info *types.Info, n ast.Node) string {
 			b.WriteString(")")
 		case *ast.SelectorExpr:
 			w(x.X)
+			if v, ok := info.Uses[x.Sel].(*types.Var); ok {
+				if o, ok := fieldCanon[v]; ok {
+					b.WriteString("." + o)
+					return
+				}
+			}
 			b.WriteString("." + x.Sel.Name)
 		case *ast.UnaryExpr:
 			b.WriteString(x.Op.String())
